@@ -12,13 +12,15 @@
 (*   FM/F1: every leaf is a table whose metamethods build a term string,   *)
 (*          so the value spells the tree the implementation evaluated;     *)
 (*   F2:    leaves are small integers / false / nil, ordinary semantics.   *)
+(* Also: the multiple-results rules on small statement templates, and one  *)
+(* small program per statement / expression form of the grammar.           *)
 (* TLC emits, per tree, the texts and the expected value; checks/syntax.py *)
 (* evaluates the texts on the real front end + runtime.  Decides C12.      *)
 (***************************************************************************)
 EXTENDS Integers, Sequences, FiniteSets, TLC, Json
 
 CONSTANTS MaxOps,    \* operators per expression tree (exhaustive mode: all trees with 0..MaxOps operators)
-          Fams,      \* subset of {"F1", "F2", "FM", "multi"}
+          Fams,      \* subset of {"F1", "F2", "FM", "multi", "forms"}
           Valuations,\* F2: sequence of 4-tuples of leaf values, e.g. << <<"i",1>>, <<"i",2>>, <<"b",FALSE>>, <<"nil">> >>
           MaxList,   \* multi: longest expression list
           SimFam     \* family used by the growing (simulation) behaviour
@@ -350,17 +352,90 @@ MultiCase(ctx, L) ==
        [] ctx = "opnd" -> [text |-> "return cnt(" \o lt \o " or 99)", exp |-> IF One(vs) = <<NilV>> THEN <<1, 99>> ELSE <<1>> \o One(vs)]
 
 (***************************************************************************)
+(* Statement and expression FORMS of the grammar (manual 3.3, 3.4.9-11,    *)
+(* 9): one small program per form; its observable behaviour (the calls of  *)
+(* the host function emit, values written "i:<int>", "s:<text>", "b:true", *)
+(* "nil") follows directly from the manual's description of the form.      *)
+(***************************************************************************)
+Forms == <<
+  [text |-> ";;; emit(1); ;", ev |-> << <<"i:1">> >>],
+  [text |-> "local a <const> = 5 emit(a)", ev |-> << <<"i:5">> >>],
+  [text |-> "local a <close> = nil local b <const>, c <close> = 1, false emit(b, c)", ev |-> << <<"i:1", "b:false">> >>],
+  [text |-> "do local t = setmetatable({}, {__close = function() emit(3) end}) local c <close> = t emit(4) end emit(5)",
+   ev |-> << <<"i:4">>, <<"i:3">>, <<"i:5">> >>],
+  [text |-> "do goto skip emit(1) ::skip:: emit(2) end", ev |-> << <<"i:2">> >>],
+  [text |-> "for i = 1, 3 do if i == 2 then goto cont end emit(i) ::cont:: end", ev |-> << <<"i:1">>, <<"i:3">> >>],
+  [text |-> "for i = 1, 3 do emit(i) end", ev |-> << <<"i:1">>, <<"i:2">>, <<"i:3">> >>],
+  [text |-> "for i = 3, 1, -1 do emit(i) end", ev |-> << <<"i:3">>, <<"i:2">>, <<"i:1">> >>],
+  [text |-> "for i = 1, 0 do emit(i) end emit(9)", ev |-> << <<"i:9">> >>],
+  [text |-> "for k, v in pairs({10}) do emit(k, v) end", ev |-> << <<"i:1", "i:10">> >>],
+  [text |-> "for k, v in next, {7} do emit(k, v) end", ev |-> << <<"i:1", "i:7">> >>],
+  [text |-> "local s = 0 for _, v in ipairs{1, 2, 3} do s = s + v end emit(s)", ev |-> << <<"i:6">> >>],
+  [text |-> "local i = 0 while i < 2 do i = i + 1 emit(i) end", ev |-> << <<"i:1">>, <<"i:2">> >>],
+  [text |-> "local i = 0 repeat local j = i + 1 i = j emit(j) until j >= 2", ev |-> << <<"i:1">>, <<"i:2">> >>],
+  [text |-> "local i = 0 while true do i = i + 1 if i > 2 then break end emit(i) end", ev |-> << <<"i:1">>, <<"i:2">> >>],
+  [text |-> "if false then emit(1) elseif nil then emit(2) elseif 0 then emit(3) else emit(4) end", ev |-> << <<"i:3">> >>],
+  [text |-> "if nil then emit(1) else emit(2) end if 1 then emit(3) end", ev |-> << <<"i:2">>, <<"i:3">> >>],
+  [text |-> "local t = {a = {}} function t.a.f(x) return x + 1 end emit(t.a.f(1))", ev |-> << <<"i:2">> >>],
+  [text |-> "local t = {v = 5} function t:get(d) return self.v + d end emit(t:get(1), t.get(t, 2))", ev |-> << <<"i:6", "i:7">> >>],
+  [text |-> "local function fact(n) if n <= 1 then return 1 end return n * fact(n - 1) end emit(fact(5))", ev |-> << <<"i:120">> >>],
+  [text |-> "function G(a) return a end emit(G(4)) G = nil", ev |-> << <<"i:4">> >>],
+  [text |-> "local f = function(...) local a, b = ... return b, a end emit(f(1, 2))", ev |-> << <<"i:2", "i:1">> >>],
+  [text |-> "local function f(a, ...) return select('#', ...), a end emit(f(1, 2, 3))", ev |-> << <<"i:2", "i:1">> >>],
+  [text |-> "emit(type\"x\", type[[y]], type{}, type'z')", ev |-> << <<"s:string", "s:string", "s:table", "s:string">> >>],
+  [text |-> "local s = \"abc\" emit(s:upper(), (\"x\"):rep(3), #s)", ev |-> << <<"s:ABC", "s:xxx", "i:3">> >>],
+  [text |-> "local t = {1, 2; 3, [10] = 4, x = 5, [\"y z\"] = 6,} emit(t[1], t[2], t[3], t[10], t.x, t[\"y z\"])",
+   ev |-> << <<"i:1", "i:2", "i:3", "i:4", "i:5", "i:6">> >>],
+  [text |-> "local t = {{1}, {2};} emit(t[2][1], #t, #{})", ev |-> << <<"i:2", "i:2", "i:0">> >>],
+  [text |-> "local a, b, c = 1 emit(a, b, c)", ev |-> << <<"i:1", "nil", "nil">> >>],
+  [text |-> "local a, b = 1, 2, 3 emit(a, b)", ev |-> << <<"i:1", "i:2">> >>],
+  [text |-> "local a, b = 1, 2 a, b = b, a emit(a, b)", ev |-> << <<"i:2", "i:1">> >>],
+  [text |-> "local t = {} t.x, t.y = 1 emit(t.x, t.y)", ev |-> << <<"i:1", "nil">> >>],
+  [text |-> "local i = 1 local t = {} i, t[i] = i + 1, 20 emit(i, t[1], t[2])", ev |-> << <<"i:2", "i:20", "nil">> >>],
+  [text |-> "emit(2^3^2 == 512, -2^2 == -4, 2^-1 == 0.5, 2^-2^2 == 0.0625)", ev |-> << <<"b:true", "b:true", "b:true", "b:true">> >>],
+  [text |-> "emit(1 .. 2, \"a\" .. \"b\" .. \"c\", 1 .. 2 == \"12\")", ev |-> << <<"s:12", "s:abc", "b:true">> >>],
+  [text |-> "emit(not nil == true, not (nil == true), 1 < 2 == true, not 1 == 2)", ev |-> << <<"b:true", "b:true", "b:true", "b:false">> >>],
+  [text |-> "emit(1 + 2 * 3 - 4 // 2, 7 % 3, 7 // 2, -7 // 2, -7 % 3, 7 % -3)", ev |-> << <<"i:5", "i:1", "i:3", "i:-4", "i:2", "i:-2">> >>],
+  [text |-> "emit(1 << 2 + 1, 1 | 2 & 3, 5 ~ 1, ~0, 6 >> 1, 1 << 63 >> 63, 3 & 2 | 4 ~ 1)", ev |-> << <<"i:8", "i:3", "i:4", "i:-1", "i:3", "i:1", "i:7">> >>],
+  [text |-> "emit(\"10\" + 5, \"3\" * \"4\", 10 .. \"\", \"0x10\" + 0)", ev |-> << <<"i:15", "i:12", "s:10", "i:16">> >>],
+  [text |-> "emit(#\"abc\", #{1, 2, 3}, -(-3), - -3, - - -3, not not nil)", ev |-> << <<"i:3", "i:3", "i:3", "i:3", "i:-3", "b:false">> >>],
+  [text |-> "emit((function() return 1, 2 end)())", ev |-> << <<"i:1", "i:2">> >>],
+  [text |-> "do local function g() return end emit(g()) emit((g())) end", ev |-> << <<>>, <<"nil">> >>],
+  [text |-> "emit(--[[ inline ]] 1 --[==[ x ]] ]==], 2) -- tail", ev |-> << <<"i:1", "i:2">> >>],
+  [text |-> "local t = setmetatable({}, {__index = function(_, k) return k .. \"!\" end, __call = function(self, a) return a + 1 end}) emit(t.foo, t(1), t[\"a b\"])",
+   ev |-> << <<"s:foo!", "i:2", "s:a b!">> >>],
+  [text |-> "local x = 1 do local x = 2 emit(x) end emit(x) local x = x + 2 emit(x)", ev |-> << <<"i:2">>, <<"i:1">>, <<"i:3">> >>],
+  [text |-> "local function outer() local n = 0 return function() n = n + 1 return n end end local c = outer() c() emit(c())", ev |-> << <<"i:2">> >>],
+  [text |-> "emit(0xff, 0XA, 1e2 == 100, 0x.8p1 == 1, 3 == 3.0, math.type(3), math.type(3.0), math.type(1e2), math.type(0x10))",
+   ev |-> << <<"i:255", "i:10", "b:true", "b:true", "b:true", "s:integer", "s:float", "s:float", "s:integer">> >>],
+  [text |-> "do return emit(1); end emit(2)", ev |-> << <<"i:1">> >>],
+  [text |-> "do return end emit(2)", ev |-> <<>>],
+  [text |-> "local t = {f = function(self, x) return x end} emit(t:f(1), t.f(t, 2), t:f\"s\", t:f{} ~= nil, t:f[[l]])",
+   ev |-> << <<"i:1", "i:2", "s:s", "b:true", "s:l">> >>],
+  [text |-> "local a = {n = 0} function a:inc() self.n = self.n + 1 return self end emit(a:inc():inc().n)", ev |-> << <<"i:2">> >>],
+  [text |-> "local g = emit g\n(3)\nlocal t = {g = g} t\n.g\n\"s\"", ev |-> << <<"i:3">>, <<"s:s">> >>],
+  [text |-> "local t = {} t.a = {} t.a.b = {c = 7} emit(t.a.b.c, t[\"a\"][\"b\"][\"c\"], (t).a[(\"b\")].c)", ev |-> << <<"i:7", "i:7", "i:7">> >>],
+  [text |-> "local a <const> = 10 local function f() return a + 1 end emit(f())", ev |-> << <<"i:11">> >>],
+  [text |-> "local n = 0 for i = 10, 1, -3 do n = n + i end emit(n) for i = 1, 3 do local i = i * 2 emit(i) end",
+   ev |-> << <<"i:22">>, <<"i:2">>, <<"i:4">>, <<"i:6">> >>],
+  [text |-> "emit(1 < 2, 2 <= 2, 3 > 4, 4 >= 4, 1 ~= 1, 1 == 1.0, \"a\" < \"b\", \"a\" == \"a\")",
+   ev |-> << <<"b:true", "b:true", "b:false", "b:true", "b:false", "b:true", "b:true", "b:true">> >>],
+  [text |-> "emit(nil and 1, false or nil, 1 and 2, nil or false, 1 or error(\"no\"), false and error(\"no\"))",
+   ev |-> << <<"nil", "nil", "i:2", "b:false", "i:1", "b:false">> >>]
+>>
+
+(***************************************************************************)
 (* Behaviours.  Exhaustive mode: start -> a coarse key (family, size, root *)
 (* operator) -> every tree of that class (emitted; the reference parser is *)
 (* checked on it by the invariant).  The two levels let TLC's workers      *)
 (* share the table.                                                        *)
 (***************************************************************************)
-TreeFams == Fams \ {"multi"}
+TreeFams == Fams \cap {"F1", "F2", "FM"}
 Keys == {<<"key", f, 0, "leaf", "_">> : f \in TreeFams}
         \cup {<<"key", f, k, "un", u>> : f \in TreeFams, k \in 1..MaxOps, u \in UNION {UnOf(g) : g \in TreeFams}}
         \cup {<<"key", f, k, "bin", b>> : f \in TreeFams, k \in 1..MaxOps, b \in AllBin}
         \cup (IF "multi" \in Fams THEN {<<"mkey", ctx>> : ctx \in MultiCtx} ELSE {})
-        \cup {<<"conf">>}
+        \cup {<<"conf">>} \cup (IF "forms" \in Fams THEN {<<"forms">>} ELSE {})
 
 (* what the test program must be built from: the leaf values of F2 and the constants returned by __lt, __le, __eq *)
 Conf == [fam |-> "conf", valuations |-> [j \in 1..Len(Valuations) |-> [i \in 1..Len(Valuations[j]) |-> TokN(Valuations[j][i])]],
@@ -387,7 +462,10 @@ PickMulti == /\ c[1] = "mkey"
                   /\ LET mc == MultiCase(c[2], L) IN
                      Emit([fam |-> "multi", ctx |-> c[2], text |-> mc.text, exp |-> OutVals(mc.exp)])
 
-Next == PickKey \/ PickTree \/ PickMulti
+PickForm == /\ c = <<"forms">>
+            /\ \E i \in 1..Len(Forms) : c' = <<"form", i>> /\ Emit([fam |-> "forms", text |-> Forms[i].text, ev |-> Forms[i].ev])
+
+Next == PickKey \/ PickTree \/ PickMulti \/ PickForm
 Spec == Init /\ [][Next]_vars
 
 OracleOK == c[1] = "tree" => OracleOKFor(Label(c[3], 0))
